@@ -205,6 +205,22 @@ func runC18(w *World, c *Check) {
 		bufT = fa.CallArgs(tee[0])[1]
 	}
 	c.Decide(bufT != "", "C18.body", fk, "tee", w.Pos(doFn.Pos()), "the first attempt tees the request body into a buffer", fmt.Sprintf("%d TeeReader calls", len(tee)))
+	// every attempt that has a body tees it — also the authenticated retry, whose own retry (a
+	// redirect after authentication) replays from the buffer of *this* call: nothing but the presence
+	// of a body decides whether it is captured
+	if len(tee) == 1 {
+		okAlways := false
+		for _, e := range fa.MatchGuard(NePass("nil", `req\.Body`)) {
+			b := e.To()
+			for steps := 0; steps < 6 && b != tee[0].Block() && len(b.Succs) == 1; steps++ {
+				b = b.Succs[0]
+			}
+			if b == tee[0].Block() && e.From.Dominates(tee[0].Block()) {
+				okAlways = true
+			}
+		}
+		c.Decide(okAlways, "C18.body", fk, "tee-whenever-body", w.Pos(InstrPos(tee[0])), "the body is captured on every attempt that has one (no other condition between the body test and the tee)", "the tee is reached from `req.Body != nil` only under a further condition: an attempt that is not captured cannot be replayed after a redirect")
+	}
 	nReset := 0
 	for _, st := range fa.storesTo(`.*\.Body`) {
 		v := fa.R.R(st.Val)
